@@ -211,12 +211,55 @@ def main():
         if bound:
             task_steps.append("MTaskUnlock")
 
+    # ---- SessionEngine::spawn_session (crates/ripd/src/runner.rs): the started-guard that makes a session
+    # stream single-writer.  The FIRST statement of the function must test `handle.started` through ONE atomic
+    # read-modify-write whose result is the tested value (swap(true, ..) / compare_exchange(false, true, ..) /
+    # fetch_or(true, ..)) -> SgAtomicRmw;  `load` (set later by `store`) -> SgCheckThenSet;  the guarded block
+    # returns false; the only tokio::spawn(run_session( follows the guard; no other access to `.started` in
+    # the function body.  Anything else: not found (gen_ok_sess_guard = false), never guessed.
+    rpath = os.path.join(a.repo, "crates", "ripd", "src", "runner.rs")
+    rsrc = strip(open(rpath).read()) if os.path.exists(rpath) else ""
+    rsrc = re.sub(r"#\[cfg\(rip_verif\)\]\s*rip_kernel::verif::point\(\s*\"[^\"]*\"\s*,?\s*\)\s*;", "", rsrc)
+    sess_guard, sess_guard_why = None, ""
+    sbody = fn_body(rsrc, "spawn_session")
+    if sbody is None:
+        sess_guard_why = "runner.rs: fn spawn_session not found"
+    else:
+        stmts = sbody.strip()
+        gm = re.match(r"if\s+handle\s*\.\s*started\s*\.\s*(\w+)\s*\(", stmts)
+        if gm is None:
+            sess_guard_why = "the first statement of spawn_session is not a test of handle.started"
+        else:
+            op = gm.group(1)
+            accesses = re.findall(r"\.\s*started\s*\.\s*(\w+)\s*\(", stmts)
+            bi = stmts.index("{", gm.end())
+            depth, bj = 1, bi + 1
+            while depth > 0 and bj < len(stmts):
+                depth += {"{": 1, "}": -1}.get(stmts[bj], 0)
+                bj += 1
+            block = stmts[bi + 1:bj - 1]
+            spawns = [x.start() for x in re.finditer(r"tokio::spawn\s*\(\s*run_session\s*\(", stmts)]
+            if re.fullmatch(r"\s*return\s+false\s*;\s*", block) is None:
+                sess_guard_why = "the guarded block is not `return false;`"
+            elif not (len(spawns) == 1 and spawns[0] > bj):
+                sess_guard_why = "expected exactly one tokio::spawn(run_session( after the guard"
+            elif op == "swap" and accesses == ["swap"] and re.match(r"if\s+handle\s*\.\s*started\s*\.\s*swap\s*\(\s*true\s*,[^)]*\)\s*\{", stmts):
+                sess_guard = "SgAtomicRmw"
+            elif op == "fetch_or" and accesses == ["fetch_or"] and re.match(r"if\s+handle\s*\.\s*started\s*\.\s*fetch_or\s*\(\s*true\s*,[^)]*\)\s*\{", stmts):
+                sess_guard = "SgAtomicRmw"
+            elif op == "compare_exchange" and accesses == ["compare_exchange"] and re.match(r"if\s+handle\s*\.\s*started\s*\.\s*compare_exchange\s*\(\s*false\s*,\s*true\s*,[^)]*\)\s*\.\s*is_err\s*\(\s*\)\s*\{", stmts):
+                sess_guard = "SgAtomicRmw"
+            elif op == "load":
+                sess_guard = "SgCheckThenSet"
+            else:
+                sess_guard_why = "unrecognised guard .started.%s (accesses: %s)" % (op, " ".join(accesses))
+
     def lst(xs):
         return "[" + "; ".join(xs) + "]"
 
     out = ["(* GENERATED by tools/gen/append_skeleton.py from crates/ripd/src/continuities.rs - do not edit.",
            "   Micro-step order of every continuity append path (C01, T1). *)",
-           "From RipV Require Import Base.Prelude Model.Frames Model.Log Model.ContStore.", "",
+           "From RipV Require Import Base.Prelude Model.Frames Model.Log Model.ContStore Model.SessGuard.", "",
            "Definition gen_locked_ops : list (etype * list mstep) :=", "  ["]
     rows = []
     for name, kind, st in locked:
@@ -251,6 +294,14 @@ Definition gen_append_skeletons_ok_b : bool :=
 
 Lemma gen_append_skeletons_ok : gen_append_skeletons_ok_b = true.
 Proof. vm_compute. reflexivity. Qed.""")
+    out.append("")
+    out.append("(* the started-guard of SessionEngine::spawn_session (crates/ripd/src/runner.rs): %s *)" % (sess_guard_why or "found"))
+    out.append("Definition gen_ok_sess_guard : bool := %s." % ("true" if sess_guard else "false"))
+    out.append("Definition gen_sess_guard : sguard := %s." % (sess_guard or "SgCheckThenSet"))
+    out.append("Lemma gen_sess_guard_ok : gen_ok_sess_guard && sg_eqb gen_sess_guard SESS_GUARD = true.")
+    out.append("Proof. vm_compute. reflexivity. Qed.")
+    out.append("Lemma gen_sess_guard_atomic : sg_atomic gen_sess_guard = true.")
+    out.append("Proof. vm_compute. reflexivity. Qed.")
     os.makedirs(a.out, exist_ok=True)
     open(os.path.join(a.out, "AppendOps.v"), "w").write("\n".join(out) + "\n")
     for name, kind, st in locked:
@@ -258,6 +309,7 @@ Proof. vm_compute. reflexivity. Qed.""")
     print("create_continuity :", " ".join(create))
     print("branch            :", " ".join(branch))
     print("handoff           :", " ".join(handoff))
+    print("spawn_session guard:", sess_guard, sess_guard_why)
     print("other functions taking the seq mutex:", extra)
     print("TaskEmitter::emit :", " ".join(task_steps))
     return 0
